@@ -25,6 +25,14 @@ type Mutant struct {
 	Key      string `json:"expect_construct,omitempty"` // substring of the reported construct
 	Benign   bool   `json:"benign,omitempty"`           // behaviour-preserving edit: the check must stay silent
 	Note     string `json:"note,omitempty"`
+	More     []Edit `json:"more,omitempty"` // further replacements of the same mutant (e.g. an import)
+}
+
+// Edit is an additional replacement.
+type Edit struct {
+	File string `json:"file"`
+	Old  string `json:"old"`
+	New  string `json:"new"`
 }
 
 var verifDirForMutants = "/verif"
@@ -131,6 +139,14 @@ func runOne(self, repo string, m Mutant) MutantResult {
 		return r
 	}
 	os.WriteFile(filepath.Join(work, m.File), []byte(strings.Replace(string(src), m.Old, m.New, 1)), 0o644)
+	for _, e := range m.More {
+		b, err := os.ReadFile(filepath.Join(work, e.File))
+		if err != nil || strings.Count(string(b), e.Old) != 1 {
+			r.Status, r.Detail = "skipped", fmt.Sprintf("additional edit does not apply to %s", e.File)
+			return r
+		}
+		os.WriteFile(filepath.Join(work, e.File), []byte(strings.Replace(string(b), e.Old, e.New, 1)), 0o644)
+	}
 	env := append(os.Environ(), "GOFLAGS=-mod=mod", "GOPROXY=off", "CGO_ENABLED=0", "GOWORK=off")
 	build := exec.Command("go", "build", "./...")
 	build.Dir = work
